@@ -7,7 +7,7 @@
 From Coq Require Import List Arith Bool ZArith Lia.
 From P9V Require Import Refs.Model Refs.PathFS Refs.RefProofs Refs.RefStep Refs.LifeProofs Refs.LifeStep Refs.Disconnect Refs.Ranked.
 From P9V Require Import Refs.TreeInv Refs.CoherentTree Refs.CoherentDefs Refs.CoherentRenFs Refs.CoherentHist.
-From P9V Require Refs.TreeStep.
+From P9V Require Refs.TreeStep Refs.NotifiedRename.
 Import ListNotations.
 
 Section Fs.
@@ -109,35 +109,31 @@ Proof.
 Qed.
 End Fs.
 
-(** before every request of a PathFS history that ends without a flagged panic *)
-Theorem rsafe_history_pfs ops wga inj :
-  s_panic pfs (snd (run pfs pfs_step ops (init_state pfs (pfs_init wga inj)))) = false ->
-  rsafe_history pfs pfs_step ops (init_state pfs (pfs_init wga inj)).
+(** before every request of every PathFS history (pathB: NotifiedRename.reach_inv_history gives the
+    invariants after every history and excludes the panics of the path-tree code) *)
+Theorem rsafe_history_pfs ops wga inj : rsafe_history pfs pfs_step ops (init_state pfs (pfs_init wga inj)).
 Proof.
-  intros HP pre o post E. set (s0 := init_state pfs (pfs_init wga inj)) in *.
-  assert (RI : RefInv pfs (snd (run pfs pfs_step pre s0))) by (apply (proj1 (history_inv pfs pfs_step pre (pfs_init wga inj)))).
-  assert (HP' : s_panic pfs (snd (run pfs pfs_step pre s0)) = false).
-  { rewrite E, (run_app pfs pfs_step pre (o :: post)) in HP. apply (panic_run (o :: post) _ RI HP). }
-  assert (TH0 : TreeHyp pre s0).
+  intros pre o post E.
+  assert (TH0 : forall pre' post', pre = pre' ++ post' -> tree_ok pfs (snd (run pfs pfs_step pre' (init_state pfs (pfs_init wga inj))))).
   { intros pre' post' E'. apply (TreeStep.tree_inv_history pfs pfs_step pre' (pfs_init wga inj)). }
-  assert (H0 : HInv s0 []).
-  { split; [apply init_inv|]. split; [apply init_good | reflexivity]. }
-  destruct (hinv_runT pre s0 [] TH0 HP' H0) as (_ & Gd & _). rewrite run_g_run in Gd.
-  apply (rsafe_pfs _ _ RI Gd). apply (TreeStep.tree_inv_history pfs pfs_step pre (pfs_init wga inj)).
+  destruct (NotifiedRename.reach_inv_history pre wga inj TH0) as ((g & RI & TH1 & Gd) & _).
+  exact (rsafe_pfs _ g RI Gd TH1 o).
 Qed.
 
-(** C05_disconnect for PathFS: every history (renames included), any failure injection *)
+(** C05_disconnect for PathFS: every history (renames included), any failure injection, no hypothesis *)
 Theorem disconnect_pfs ops wga inj cs :
   let s0 := snd (run pfs pfs_step ops (init_state pfs (pfs_init wga inj))) in
   let s := snd (run pfs pfs_step (map OStop cs) s0) in
   (forall k, In k (fkeys pfs s0) -> In (fst k) cs) ->
-  s_fids pfs s = [] /\
-  (s_panic pfs s = false -> forall h, h < s_nexth pfs s -> close_count h (s_log pfs s) = 1).
+  s_fids pfs s = [] /\ s_panic pfs s = false /\
+  forall h, h < s_nexth pfs s -> close_count h (s_log pfs s) = 1.
 Proof.
-  cbv zeta. intros Cover. split; [apply all_stopped_empty; exact Cover|]. intros Hp.
-  assert (Hp0 : s_panic pfs (snd (run pfs pfs_step ops (init_state pfs (pfs_init wga inj)))) = false).
-  { apply (panic_run (map OStop cs)); [apply (proj1 (history_inv pfs pfs_step ops (pfs_init wga inj))) | exact Hp]. }
-  exact (proj2 (disconnect_rsafe pfs pfs_step ops (pfs_init wga inj) cs (rsafe_history_pfs ops wga inj Hp0) Cover) Hp).
+  cbv zeta. intros Cover. split; [apply all_stopped_empty; exact Cover|].
+  assert (Hp : s_panic pfs (snd (run pfs pfs_step (map OStop cs) (snd (run pfs pfs_step ops (init_state pfs (pfs_init wga inj)))))) = false).
+  { rewrite <- run_app. apply (NotifiedRename.reach_inv_history (ops ++ map OStop cs) wga inj).
+    intros pre' post' E'. apply (TreeStep.tree_inv_history pfs pfs_step pre' (pfs_init wga inj)). }
+  split; [exact Hp|].
+  exact (proj2 (disconnect_rsafe pfs pfs_step ops (pfs_init wga inj) cs (rsafe_history_pfs ops wga inj) Cover) Hp).
 Qed.
 
 (** B2 is necessary: a backend that lets a directory be renamed below itself (here: one that says yes
